@@ -1242,7 +1242,7 @@ def _client_evaluated(ctx):
         if why:
             bad.append((name, "some body bytes buffered before a late deliverBody, the rest delivered synchronously when the transport is resumed", why))
     # persistent connections: a complete response is finished (consumer told, protocol reusable) without waiting for the connection to close
-    for name, method, wire, body, ending in [r for r in _RESPONSES if r[4] in ("length", "chunked", "none")]:
+    for name, method, wire, body, ending in [r for r in _RESPONSES if r[4] in ("length", "chunked", "none") and not r[0].startswith("interim-with")]:
         for cuts in ((_head_end(wire),),):
             n += 1
             obs = _exchange(w, method, wire, cuts, lose=False, persistent=True)
